@@ -29,7 +29,8 @@ ASSUMPTIONS = [
 REQUIRED = {"match.instance_matches": {"quick": 3000, "thorough": 150000}, "args.values_and_passing": {"quick": 3000, "thorough": 150000},
             "args.span_invariant": {"quick": 5000, "thorough": 100000}, "nomatch.near_miss_rejected": {"quick": 6000, "thorough": 300000},
             "registry.lookup_matches_model": {"quick": 3000, "thorough": 150000}, "registry.ambiguity_iff_model": {"quick": 800, "thorough": 40000},
-            "registry.same_definition_ignored": {"quick": 50, "thorough": 2000}, "modules.default_matcher_reset": {"quick": 100, "thorough": 800},
+            "registry.same_definition_ignored": {"quick": 50, "thorough": 2000},
+            "registry.partial_converter_lookup": {"quick": 2000, "thorough": 100000}, "lookups_ending_in_converter_error": {"quick": 200, "thorough": 10000}, "modules.default_matcher_reset": {"quick": 100, "thorough": 800},
             "wrapper.span_invariant_on_every_match": {"quick": 5000, "thorough": 250000}}
 REQUIRED_SEEN = {"matcher_kind": KINDS, "token_kind": ["lit", "named", "int", "word", "float", "custom", "many", "optional", "rnamed", "runnamed", "roptional"]}
 EXHAUSTIVE = {"quick": True, "thorough": True}
@@ -600,6 +601,76 @@ def module_loading_random(lab, mon, rng):
         shutil.rmtree(root, ignore_errors=True)
 
 
+def partial_converters(lab, mon, rng):
+    """User-defined types whose converter REJECTS some of the texts its regular expression accepts (positive number, month
+    1..12): the step is bound to the first definition whose pattern matches -- the lookup ends there with a match-with-error
+    (the step ends in error), it does not fall through to a later / generic definition that would take the raw text."""
+    import parse
+    M = lab.matchers
+    excs = [ValueError, KeyError, TypeError, ZeroDivisionError]
+    exc = rng.choice(excs)
+
+    @parse.with_pattern(r"\d+")
+    def parse_positive(text):
+        if int(text) <= 0:
+            raise exc("not positive: %r" % text)
+        return int(text)
+
+    @parse.with_pattern(r"\d+")
+    def parse_month(text):
+        return {str(i): i for i in range(1, 13)}[text] if exc is KeyError else (int(text) if 1 <= int(text) <= 12 else (_ for _ in ()).throw(exc("no month: %r" % text)))
+
+    reg = lab.fresh_registry()
+    M.ParseMatcher.register_type(Positive=parse_positive, Month=parse_month)
+    specific_kind = rng.choice(["parse", "cfparse"])
+    generic_kind = rng.choice(["parse", "re"])
+    tname, good, bad = rng.choice([("Positive", "3", "0"), ("Month", "12", "13"), ("Month", "1", "0")])
+    head = rng.choice(["I order", "we ship", "bestelle"])
+    tail = rng.choice(["pizzas", "items now", "x"])
+    specific_type = rng.choice(["given", "when", "then"])
+    sp_text = "%s {n:%s} %s" % (head, tname, tail)
+    ge_text = ("%s {what} %s" % (head, tail)) if generic_kind == "parse" else ("%s (?P<what>.+) %s" % (head, tail))
+    f_spec, f_gen, f_other = lab.make_fn("specific"), lab.make_fn("generic"), lab.make_fn("other")
+    order = [("spec", specific_kind, specific_type, sp_text, f_spec), ("gen", generic_kind, "step", ge_text, f_gen),
+             ("other", "parse", "step", "something else entirely", f_other)]
+    rng.shuffle(order)
+    desc = []
+    try:
+        for tag, kind, st, ptext, fn in order:
+            lab.register(reg, kind, st, ptext, fn)
+            desc.append((st, kind, ptext, tag))
+    except Exception as ex:
+        mon.check("registry.partial_converter_lookup", False, lambda: dict(history=desc, error=repr(ex)))
+        return
+    mon.case(("partial-converter", tuple(desc), exc.__name__), True)
+    mon.seen("converter_rejects_with", exc.__name__)
+    for step_type in ("given", "when", "then"):
+        for value, kind in ((good, "accepted"), (bad, "rejected"), ("many", "no_match_for_specific")):
+            text = "%s %s %s" % (head, value, tail)
+            if step_type == specific_type and kind == "accepted":
+                want = ("specific", {"n": int(value)})
+            elif step_type == specific_type and kind == "rejected":
+                want = "<match with error>"
+            else:
+                want = ("generic", {"what": value})
+            del lab.calls[:]
+            try:
+                m = reg.find_match(FakeStep(step_type, text))
+                if m is None:
+                    got = None
+                elif isinstance(m, M.MatchWithError):
+                    got = "<match with error>"
+                else:
+                    m.run(FakeContext())
+                    got = (lab.calls[-1][0], dict(lab.calls[-1][2])) if lab.calls else "<not called>"
+            except Exception as ex:
+                got = "error %r" % ex
+            mon.check("registry.partial_converter_lookup", got == want,
+                      lambda: dict(history=desc, step_type=step_type, text=text, got=repr(got), want=repr(want), converter_raises=exc.__name__))
+            if want == "<match with error>":
+                mon.count("lookups_ending_in_converter_error")
+
+
 def run(spec, mon):
     lab = Lab(mon)
     tier = spec.get("tier", "quick")
@@ -625,6 +696,8 @@ def run(spec, mon):
         L = rng.randint(2, 6)
         hist = [(rng.choice(TYPES), rng.randrange(len(POOL)), rng.choice("fgh")) for _ in range(L)]
         run_history(lab, mon, hist, "random")
+    for i in range(25 if tier == "quick" else 1500):
+        partial_converters(lab, mon, rng)
     module_loading(lab, mon, rng)
     for i in range(8 if tier == "quick" else 60):
         module_loading_random(lab, mon, rng)
